@@ -299,6 +299,9 @@ def _disposition(project, pinned=None) -> dict:
                     bad.append([t.fullId, scIdx, "scheduled-without-dates", str(s), str(e)])
                 elif s > e:
                     how = "|pinned-start-and-end" if (s in inputs and e in inputs) else ""
+                    gran = project.attributes.get("scheduleGranularity") or 3600
+                    if not how and st and int((s - st).total_seconds() // gran) == int((e - st).total_seconds() // gran):
+                        how = "|same-slot"  # sub-slot work after a mid-slot start: end computed from the slot start
                     bad.append([t.fullId, scIdx, "start>end" + how, str(s), str(e)])
                 elif st and en and (s < st or e > en):
                     off = [x for x in (s, e) if x < st or x > en]
